@@ -34,7 +34,7 @@ pub enum Ev {
 pub open spec fn ev_dom(s0: StoreView, e: Ev) -> bool {
     match e {
         Ev::Stake { amount, .. } => state_dom(s0) && amount <= AMOUNT_MAX(),
-        Ev::Unstake { amount, .. } => amount <= AMOUNT_MAX() && s0.pending_batch_id is Some && pending_total(s0) <= u128::MAX - AMOUNT_MAX(),
+        Ev::Unstake { amount, .. } => unstake_dom(s0, amount) && s0.pending_batch_id is Some && pending_total(s0) <= u128::MAX - AMOUNT_MAX(),
         Ev::Submit { .. } => state_dom(s0) && s0.pending_batch_id is Some && s0.pending_batch_id->Some_0 < u64::MAX,
         Ev::Rewards { env, info, .. } => rewards_dom(s0, env, info),
         _ => true,
@@ -45,7 +45,7 @@ pub open spec fn ev_dom(s0: StoreView, e: Ev) -> bool {
 pub open spec fn same_books(s0: StoreView, s1: StoreView) -> bool {
     &&& s0.state is Some && s1.state is Some
     &&& tn(s1) == tn(s0) && tl(s1) == tl(s0) && fees(s1) == fees(s0)
-    &&& s1.batches == s0.batches && s1.pending_batch_id == s0.pending_batch_id
+    &&& s1.batches == s0.batches && s1.pending_batch_id == s0.pending_batch_id && s1.requests == s0.requests
 }
 
 /// what the step does to the store (established by the handlers' `ensures` on the real code)
@@ -207,6 +207,45 @@ pub proof fn theorem_batch_table(tr: Seq<(StoreView, Ledger)>, evs: Seq<Ev>)
             _ => { assert(s1.batches == s0.batches && s1.pending_batch_id == s0.pending_batch_id); }
         }
         assert forall|i: int| 0 <= i < tr.len() implies invb((#[trigger] tr[i]).0) && inv3b(tr[i].0, tr[i].1) by {
+            if i < n { assert(tr0[i] == tr[i]); }
+        }
+    }
+}
+
+/// C05: every batch's total equals the sum of its open requests until its tokens arrive, and bounds it afterwards -
+/// at every point of every history
+// [C05.request-sums-all-histories]
+pub proof fn theorem_request_sums(tr: Seq<(StoreView, Ledger)>, evs: Seq<Ev>)
+    requires history(tr, evs), invb(tr[0].0), inv3b(tr[0].0, tr[0].1), inv5(tr[0].0),
+    ensures forall|i: int| 0 <= i < tr.len() ==> inv5((#[trigger] tr[i]).0),
+    decreases evs.len(),
+{
+    if evs.len() > 0 {
+        let n = evs.len() as int;
+        let tr0 = tr.drop_last(); let evs0 = evs.drop_last();
+        assert(history(tr0, evs0)) by {
+            assert forall|i: int| 0 <= i < evs0.len() implies ev_dom((#[trigger] tr0[i]).0, evs0[i]) && ev_step(tr0[i].0, tr0[i].1, evs0[i], tr0[i + 1].0, tr0[i + 1].1) by {
+                assert(tr0[i] == tr[i] && tr0[i + 1] == tr[i + 1] && evs0[i] == evs[i]);
+            }
+        }
+        assert(tr0[0] == tr[0]);
+        theorem_request_sums(tr0, evs0);
+        theorem_batch_table(tr0, evs0);
+        assert(tr0[n - 1] == tr[n - 1]);
+        let s0 = tr[n - 1].0; let s1 = tr[n].0;
+        assert(ev_dom(tr[n - 1].0, evs[n - 1]) && ev_step(tr[n - 1].0, tr[n - 1].1, evs[n - 1], tr[n].0, tr[n].1));
+        assert(inv5(s0) && invb(s0));
+        match evs[n - 1] {
+            Ev::Unstake { info, amount, ms } => { lemma_inv5_unstake(s0, info, amount, s1, ms); }
+            Ev::Submit { env, ms } => { lemma_inv5_submit(s0, env, s1, ms); }
+            Ev::Withdraw { env, info, batch_id, ms } => { lemma_inv5_withdraw(s0, env, info, batch_id, s1, ms); }
+            Ev::Unstaked { env, info, batch_id, ms } => { lemma_inv5_unstaked(s0, env, info, batch_id, s1, ms); }
+            Ev::Stake { .. } => { assert(s1.batches == s0.batches && s1.requests == s0.requests); }
+            Ev::Rewards { .. } => { assert(s1.batches == s0.batches && s1.requests == s0.requests); }
+            Ev::FeeWithdraw { .. } => { assert(s1.batches == s0.batches && s1.requests == s0.requests); }
+            _ => { assert(s1.batches == s0.batches && s1.requests == s0.requests); }
+        }
+        assert forall|i: int| 0 <= i < tr.len() implies inv5((#[trigger] tr[i]).0) by {
             if i < n { assert(tr0[i] == tr[i]); }
         }
     }
